@@ -104,6 +104,10 @@ def household(kind, hh_id=0, first_pid=0, year=2023, rng=None):
     elif kind == "single_parent":
         a = add(alter=33, bruttolohn_m=1400.0, alleinerz=True, weiblich=True, steuerklasse=2)
         add(alter=6, kind=True, bruttolohn_m=0.0, p_id_elternteil_1=a, p_id_kindergeld_empf=a, arbeitsstunden_w=0.0, kind_unterh_anspr_m=300.0)
+    elif kind == "single_father":
+        # the only parent is recorded in the second parent column
+        a = add(alter=36, bruttolohn_m=1700.0, alleinerz=True, steuerklasse=2)
+        add(alter=5, kind=True, bruttolohn_m=0.0, p_id_elternteil_2=a, p_id_kindergeld_empf=a, arbeitsstunden_w=0.0, kind_unterh_anspr_m=250.0)
     elif kind == "family":
         a = add(alter=41, bruttolohn_m=2900.0)
         b = add(alter=40, bruttolohn_m=900.0, weiblich=True)
@@ -136,7 +140,7 @@ def household(kind, hh_id=0, first_pid=0, year=2023, rng=None):
     return rows
 
 
-KINDS = ["single", "couple", "married", "single_parent", "family", "patchwork", "three_gen", "adult_child", "pensioners"]
+KINDS = ["single", "couple", "married", "single_parent", "single_father", "family", "patchwork", "three_gen", "adult_child", "pensioners"]
 
 
 def to_frame(rows):
